@@ -87,3 +87,15 @@ add("C04", M, IT, "            positive_probs[sensitive_feature_vector == a] = i
     "            positive_probs[sensitive_feature_vector.astype(str) == str(a)] = interpolated_predictions[\n                sensitive_feature_vector.astype(str) == str(a)\n            ]", "selection through str()")
 add("C07", M, UP, "            predictions = np.squeeze(predictions)", "            predictions = np.require(np.squeeze(predictions), requirements='W')\n            predictions *= 1.0", "in-place on np.require view")
 add("C05", R, TC, "    scores = list(data_sorted[SCORE_KEY])", "    scores = data_sorted[SCORE_KEY].tolist()", "tolist gives Python numbers")
+# fifth batch, second part
+BE = "fairlearn/adversarial/_backend_engine.py"
+add("C01", M, MF, "f_arr = np.squeeze(np.asarray(features, dtype=object))", "f_arr = np.squeeze(np.asarray(features))", "records coerced to one dtype")
+add("C01", M, AMF, "            args.append(np.asarray(list(df[arg_name])))", "            args.append(np.asarray(df[arg_name]))", "frame buffer handed to the metric")
+add("C17", M, ADV, "                        result = cb(\n                            self, step=self.n_iter_, X=X, y=y, z=sensitive_features, pos_label=1\n                        )",
+    "                        result = stop or cb(\n                            self, step=self.n_iter_, X=X, y=y, z=sensitive_features, pos_label=1\n                        )", "short-circuited callbacks")
+add("C19", M, PT, "        torch.manual_seed(base.random_state_.random())\n\n        self.model_class = torch.nn.Module\n        self.optim_class = torch.optim.Optimizer\n        super(PytorchEngine, self).__init__(base, X, Y, A)",
+    "        self.model_class = torch.nn.Module\n        self.optim_class = torch.optim.Optimizer\n        super(PytorchEngine, self).__init__(base, X, Y, A)\n        torch.manual_seed(base.random_state_.random())", "seed after the networks are built")
+add("C19", M, BE, "            predictor_list_nodes = [X_features] + model_param + [y_features]", "            predictor_list_nodes = model_param\n            predictor_list_nodes += [y_features]\n            predictor_list_nodes = [X_features] + predictor_list_nodes", "configured list extended in place")
+add("C20", M, UP, "            if not (0 < ratio_bound <= 1):", "            if ratio_bound <= 0 or ratio_bound > 1:", "NaN bound accepted")
+add("C20", M, GS, "            if not (0.0 <= constraint_weight <= 1.0):", "            if constraint_weight < 0.0 or constraint_weight > 1.0:", "NaN weight accepted")
+add("C17", R, ADV, "                        stop = stop or result", "                        stop = result or stop", "commuted accumulation")
